@@ -14,7 +14,7 @@ def _sources():
         dict(name="outgoing", mcmodule="OutgoingMC", pkg="outgoing", consts=spec_outgoing.MIX_Q, overrides=None,
              harness=spec_outgoing.harness("eth", spec_outgoing.MIX_Q)),
     ]
-    src.append(dict(name="multi", mcmodule="MultiMC", pkg="multi", consts=dict(N=12, Ks=[2, 3], MaxCalls=2, MaxBlocks=2, MaxSends=6), overrides=None,
+    src.append(dict(name="multi", mcmodule="MultiMC", pkg="multi", consts=dict(N=12, Ks=[2, 3], MaxCalls=2, MaxBlocks=2, MaxSends=6, MaxIbc=2), overrides=None,
                     harness=dict(chain="eth", N=12), walks_factor=2))
     for extra in EXTRA_SOURCES:
         try:
@@ -42,7 +42,9 @@ EXTRA_SOURCES = [
     _from_gen("spec_oraclelife", "OL_GEN", "oraclelife", "OracleLifeMC", "oraclelife"),
 ]
 
-RUNS = [dict(GOMAXPROCS="1"), dict(GOMAXPROCS="4"), dict(GOMAXPROCS="16", GOGC="20")]
+# the third process also executes the walks in the opposite order: a walk's result must not depend on what the process
+# executed (on other, discarded branches) before it
+RUNS = [dict(GOMAXPROCS="1"), dict(GOMAXPROCS="4"), dict(GOMAXPROCS="16", GOGC="20", VERIF_WALK_ORDER="rev")]
 
 
 def run(work, args):
